@@ -132,6 +132,16 @@ def scenarios(tier, seed):
             m2 = Magnitude(v.a, rele=r)
             return [('abs->rel->abs', O.eq(m2.error, v.ea)), ('rele', O.eq(r * v.a, 100 * v.ea))]
         ''', {'a': 'real', 'ea': 'real'}, ['v.ea >= 0', 'v.a > 0'], preamble=PRE, what='relative/absolute conversion'))
+    S.append(Scenario('rele-any-sign', '''
+        def run(v, O):
+            m = Magnitude(v.a, rele=v.r)
+            q = Quantity(v.a, 'm', rele=v.r)
+            out = [('relative input: absolute uncertainty is not negative', O.ge(m.error, 0)), ('relative input: abse = |a| r / 100', O.eq(m.error, O.abs(v.a) * v.r / 100)),
+                   ('relative input read back', O.eq(m.rele(), v.r)), ('quantity with relative input: abse not negative', O.ge(q.abse(), 0)),
+                   ('sum of two such magnitudes: not negative', O.ge((m + m).error, 0)), ('rele() of a negative value with an absolute uncertainty is not negative', O.ge(Magnitude(v.a, v.ea).rele(), 0)),
+                   ('converted quantity: abse not negative', O.ge(Quantity(v.a, 'km', rele=v.r).to('m').abse(), 0))]
+            return out
+        ''', {'a': 'real', 'r': 'real', 'ea': 'real'}, ['v.r >= 0', 'v.ea >= 0', 'v.a != 0'], preamble=PRE, what='uncertainty given as a relative value on a value of either sign'))
     # linear conversions scale the uncertainty like the value
     pairs = [('km', 'm'), ('m', 'km'), ('g', 'kg'), ('h', 's'), ('km/h', 'm/s'), ('J', 'erg'), ('mm2', 'm2'), ('eV', 'J'), ('l', 'cm3'), ('N*m', 'J')]
     if tier != 'quick':
